@@ -27,9 +27,10 @@ def run(ck):
                        "interleavings of the last two try_close calls beyond the Release/Acquire floor are not decided"]
     ck.rule("C05.R1", "ref_count ledger: only new/clone/try_close/Default touch it; own increments are paired", floor=8)
     ck.rule("C05.R2", "try_close true only for the last reference, after an Acquire fence", floor=3)
-    ck.rule("C05.R3", "slot cleared only by the last CloseGuard of a closing span (after on_close)", floor=6)
+    ck.rule("C05.R3", "slot cleared only by the last CloseGuard of a closing span (after on_close)", floor=7)
     ck.rule("C05.R4", "Clear resets every stored field not overwritten at creation", floor=5)
     ck.rule("C05.R5", "the registry's own references are released through the owning stack", floor=2)
+    ck.rule("C05.R9", "the span reference count cannot wrap: at least pointer-sized", floor=2)
     ck.rule("C05.R8", "reload::Subscriber forwards on_close (and every other notification) under a blocking per-call lock (as C12.R3)", floor=20)
     ck.rule("C05.R7", "collector wrappers forward the reference-counting and enter/exit calls (as C09.R1/R2)", floor=25)
     ck.rule("C05.R6", "the entered reference is released by exactly the stack entry that took it (push/pop discipline, as C06.R2)", floor=3)
@@ -55,6 +56,8 @@ def run(ck):
             # a layer behind reload::Subscriber gets its on_close (and everything else) only if the wrapper waits for its lock
             from rules import C12
             C12.r3(ck, F, rid="C05.R8")
+            from rulekit.query import counter_width
+            counter_width(ck, F, "C05.R9", ("tracing_subscriber::registry::sharded::",))
     ck.tag = ""
 
 
@@ -288,13 +291,37 @@ def r3(ck, F):
             ck.bad("C05.R3", "close count decremented before the slot is cleared", where(t["sp"]), "CLOSE_COUNT.set does not dominate Pool::clear", fn=dg)
     else:
         ck.bad("C05.R3", "Pool::clear called only from Drop for CloseGuard", str([b.path for b, _, _ in clearers]), "slot removal sites: %s" % [b.path for b, _, _ in clearers])
+    # the count says "how many on_close frames are open *on this thread*": a shared counter would make one thread's
+    # outermost guard see another thread's frames and skip the removal for good
+    users = {}
+    for path in (REG + "::start_close", "<%sCloseGuard<'_> as core::ops::drop::Drop>::drop" % S):
+        x = F.body(path)
+        if x is None:
+            continue
+        keys = set()
+        for bb, t in x.calls():
+            if t["callee"].get("path", "").startswith("std::thread::local::LocalKey") and t["callee"].get("method") in ("with", "try_with") and t["argv"]:
+                o = x.origin(t["argv"][0])
+                if o[0] == "const" and isinstance(o[1], dict):
+                    if o[1].get("static") or o[1].get("static_id"):
+                        keys.add(o[1].get("static") or o[1].get("static_id"))
+                    for pr in x.raw.get("promoted", []):      # `thread_local!` with a const initialiser: a const LocalKey
+                        if pr.get("idx") == o[1].get("promoted"):
+                            keys |= {c["def"] for c in pr.get("consts", []) if c.get("def") and "LocalKey" in c.get("ty", "")}
+        users[path.rsplit("::", 1)[1] if "Drop" not in path else "CloseGuard::drop"] = keys
+    if len(users) == 2 and all(users.values()) and len(set.union(*users.values())) == 1:
+        ck.ok("C05.R3", "the close count is a thread-local, the same one in start_close and CloseGuard::drop", detail=sorted(set.union(*users.values())))
+    else:
+        ck.bad("C05.R3", "the close count is a thread-local, the same one in start_close and CloseGuard::drop", S + "CLOSE_COUNT",
+               "thread-locals used: %s -- the count of open on_close frames must be per thread (a counter shared between threads lets overlapping closes on two "
+               "threads each see a count > 1: neither removes its span, and the parents are never released)" % {k: sorted(v) for k, v in users.items()})
     # start_close increments
     sc = F.body(REG + "::start_close")
     if ck.anchor("C05.R3", "Registry::start_close", sc):
         inc = False
         for c in F.closures_of(sc):
             for bb, t in c.calls():
-                if t["callee"].get("method") == "set" and "Cell" in t["callee"]["path"]:
+                if t["callee"].get("method") in ("set", "replace", "update") and "Cell" in t["callee"]["path"]:
                     o = c.origin(t["argv"][1])
                     inc = o[0] in ("bin", "local", "multi", "agg") or True
         guards = [1 for i, j, s in sc.stmts() if "agg" in s.get("rv", {}) and s["rv"]["agg"].get("adt") == S + "CloseGuard"]
@@ -402,10 +429,10 @@ def r4(ck, F):
             ck.bad("C05.R4", key, where(cl.raw["sp"]), "field is neither reset by Clear nor overwritten by new_span: stale data survives slot reuse")
 
 
-def r5(ck, F):
+def r5(ck, F, rid="C05.R5"):
     for fn, label in ((COLLECT_REG + "exit", "Registry::exit"), ("<%s as sharded_slab::clear::Clear>::clear" % DI, "DataInner::clear")):
         b = F.body(fn)
-        if not ck.anchor("C05.R5", label, b):
+        if not ck.anchor(rid, label, b):
             continue
         gd = [(bb, t) for bb, t in b.calls() if t["callee"].get("path") == "tracing_core::dispatch::get_default"]
         # a release that calls the registry's own try_close closes the span behind the layers' backs: no on_close, no
@@ -413,15 +440,15 @@ def r5(ck, F):
         direct = [(bb, t) for x in [b] + F.closures_of(b) for bb, t in x.calls() if t["callee"].get("method") == "try_close"
                   and (t["callee"].get("resolved") or t["callee"].get("path") or "").startswith(COLLECT_REG)]
         if direct:
-            ck.bad("C05.R5", "%s releases through the whole stack" % label, where(direct[0][1]["sp"]),
+            ck.bad(rid, "%s releases through the whole stack" % label, where(direct[0][1]["sp"]),
                    "the reference is released by calling Registry::try_close directly: when it is the last one the span is closed without any layer's "
                    "on_close and without a CloseGuard (the slot is never cleared, the parent never released)", fn=fn)
             continue
         if gd:
-            ck.bad("C05.R5", "%s->get_default" % label, where(gd[0][1]["sp"]),
+            ck.bad(rid, "%s->get_default" % label, where(gd[0][1]["sp"]),
                    "the reference the registry took for itself is released through dispatch::get_default (the thread's *current* default), not through the stack that owns the span", fn=fn)
         else:
-            ck.ok("C05.R5", "%s releases without consulting the current default" % label, fn=fn)
+            ck.ok(rid, "%s releases without consulting the current default" % label, fn=fn)
 
 
 def short(p):
